@@ -39,6 +39,8 @@ type FuncSpec struct {
 	Implements []string
 	Uses       []string          // lemmas made available to this function's obligations
 	Hints      map[int][]*Clause // proof hints asserted (proved, then assumed) after the k-th call
+	NamedHints map[string][]*Clause // hints attached to "NAME#K" (K-th call of NAME), "-NAME#K" = before; resolved per function
+	namedDone  bool
 	Trusts     map[string]string // obligation suffix -> reason: runtime checks taken on trust (listed in the evidence)
 	Props      []string
 	Lets       []*Clause
@@ -46,6 +48,7 @@ type FuncSpec struct {
 	Assumes    []*Clause // assumed at entry, not required of callers (heap well-formedness)
 	Defines    []*Clause // definitional postconditions (assumed at call sites only)
 	Ensures    []*Clause
+	IEnsures   []*Clause
 	XEnsures   []*Clause
 	Modifies   []*Clause
 	Loops      map[int]*LoopSpec
@@ -63,6 +66,7 @@ type TypeSpec struct {
 	Hypotheses []*Clause // assumed at method entry, never checked (stated in the trusted base)
 	Flags      map[string]bool
 	GuardedBy  map[string]string // field -> mutex field
+	LockInv    []*Clause         // lock invariants of the guarded state
 	Immutable  map[string]string // field -> pure spec function (declared) giving its value
 	File       string
 	Line       int
@@ -112,7 +116,9 @@ var topKeywords = map[string]bool{"global": true, "declare": true, "type": true,
 var subKeywords = map[string]bool{"requires": true, "ensures": true, "xensures": true, "invariant": true, "decreases": true,
 	"modifies": true, "let": true, "loop": true, "implements": true, "props": true, "pure": true, "nopanic": true, "inline": true,
 	"view": true, "modelfield": true, "guarded_by": true, "trusted": true, "safe": true, "opaque": true, "noverify": true, "immutable": true,
-	"trusts": true, "assumeat": true, "defines": true, "hint": true, "checks": true, "assumes": true, "uses": true, "hypothesis": true, "mayblock": true, "syncwrites": true, "terminates": true, "nilok": true, "noinv": true, "noxinv": true, "noframe": true, "constructor": true}
+	"trusts": true, "assumeat": true, "defines": true, "hint": true, "checks": true, "iensures": true, "lockinv": true, "assumes": true, "uses": true, "hypothesis": true, "mayblock": true, "interfered": true, "syncwrites": true, "terminates": true, "nilok": true, "noinv": true, "noxinv": true, "noframe": true, "constructor": true}
+
+var namedCall = regexp.MustCompile(`^call\s+([A-Za-z_][\w]*)#(\d+)$`)
 
 var clauseHead = regexp.MustCompile(`^([a-z_]+)(\[[A-Za-z0-9, ]+\])?\s*(.*)$`)
 
@@ -332,6 +338,10 @@ func (c *Contracts) loadFile(path string) error {
 					ts.Invariants = append(ts.Invariants, cl)
 				case "hypothesis":
 					ts.Hypotheses = append(ts.Hypotheses, cl)
+				case "lockinv":
+					// lockinv expr: holds of the guarded state whenever the guarding mutex is free (lock invariant)
+					cl.Ord = len(ts.LockInv) + 1
+					ts.LockInv = append(ts.LockInv, cl)
 				case "immutable":
 					// immutable FIELD FUNC
 					f := strings.Fields(cl.Text)
@@ -403,6 +413,11 @@ func (c *Contracts) loadFile(path string) error {
 					// a postcondition that defines a specification function as "what this function returns":
 					// assumed by callers, never an obligation (the function is deterministic in these arguments)
 					fs.Defines = append(fs.Defines, cl)
+				case "iensures":
+					// iensures: a postcondition proved in the interference pass (guarded state is re-read under the
+					// lock invariant after every Lock): holds whatever other threads do between this thread's steps
+					cl.Ord = len(fs.IEnsures) + 1
+					fs.IEnsures = append(fs.IEnsures, cl)
 				case "ensures", "checks":
 					// checks: a postcondition proved at every return of the body but not handed to callers
 					// (it may mention local variables through local(x))
@@ -432,6 +447,26 @@ func (c *Contracts) loadFile(path string) error {
 						before = true
 						head = strings.TrimSpace(strings.TrimPrefix(head, "before "))
 					}
+					e, err := ParseExpr(cl.Text[i+1:])
+					if err != nil {
+						return fmt.Errorf("%s:%d: %v", path, s.line, err)
+					}
+					cl.E = e
+					body := strings.TrimSpace(cl.Text[i+1:])
+					if m := namedCall.FindStringSubmatch(head); m != nil {
+						// hint [before] call NAME#K: the K-th call (in program order) of a function or method called
+						// NAME — stable when unrelated calls are added or removed
+						cl.Text = body
+						key := m[1] + "#" + m[2]
+						if before {
+							key = "-" + key
+						}
+						if fs.NamedHints == nil {
+							fs.NamedHints = map[string][]*Clause{}
+						}
+						fs.NamedHints[key] = append(fs.NamedHints[key], cl)
+						break
+					}
 					n, err := strconv.Atoi(strings.TrimSpace(strings.TrimPrefix(head, "call")))
 					if before {
 						n = -n
@@ -439,12 +474,7 @@ func (c *Contracts) loadFile(path string) error {
 					if err != nil {
 						return fmt.Errorf("%s:%d: hint N: expr", path, s.line)
 					}
-					e, err := ParseExpr(cl.Text[i+1:])
-					if err != nil {
-						return fmt.Errorf("%s:%d: %v", path, s.line, err)
-					}
-					cl.E = e
-					cl.Text = strings.TrimSpace(cl.Text[i+1:])
+					cl.Text = body
 					if fs.Hints == nil {
 						fs.Hints = map[int][]*Clause{}
 					}
@@ -541,7 +571,7 @@ func parseClause(l rawLine, path string) (*Clause, error) {
 		} else if _, err2 := ParseExpr("tuple(" + cl.Text + ")"); err2 != nil {
 			return nil, fmt.Errorf("%s:%d: %v", path, l.line, err)
 		}
-	case "requires", "ensures", "checks", "xensures", "invariant", "view", "hypothesis", "assumes", "defines":
+	case "requires", "ensures", "checks", "iensures", "lockinv", "xensures", "invariant", "view", "hypothesis", "assumes", "defines":
 		e, err := ParseExpr(cl.Text)
 		if err != nil {
 			return nil, fmt.Errorf("%s:%d: %v", path, l.line, err)
